@@ -370,7 +370,12 @@ class Check:
         self.violations.append((what, replay, no_input))
 
     def known_hit(self, cls, example):
-        self.known_hits.setdefault(cls, example)
+        """a failure of a class listed in known_findings.json for this property; a class that is not listed
+        there is an ordinary violation (the file is never extended at run time)"""
+        if any(k["class"] == cls for k in self.known):
+            self.known_hits.setdefault(cls, example)
+        else:
+            self.violation("unlisted failure class %s: %s" % (cls, example), {"class": cls, "example": example})
 
     def finish(self):
         wall = time.time() - self.t0
